@@ -10,4 +10,4 @@ trap 'rm -rf "$D"' EXIT
 ( cd /repo && git ls-files -z | xargs -0 tar cf - ) | tar xf - -C "$D"
 ( cd "$D" && git init -q . 2>/dev/null; patch -p1 -s < "$P" ) || { echo "PATCH DOES NOT APPLY"; exit 3; }
 ( cd "$D" && go build ./... ) || { echo "DOES NOT BUILD"; exit 3; }
-/verif/bin/digcheck -property "$PROP" -repo "$D" -evidence-dir "$D/.ev" 2>&1 | grep -E '^(violated|VIOLATION|UNDECIDED|KNOWN|canonicalised)' | sed "s#$D/##g" | cut -c1-${COLS:-260}
+/verif/bin/digcheck -property "$PROP" -repo "$D" -evidence-dir "$D/.ev" 2>&1 | grep -E '^(violated|VIOLATION|UNDECIDED|canonicalised)' | sed "s#$D/##g" | cut -c1-${COLS:-260}
